@@ -253,13 +253,21 @@ theorem good_add_any (p : Nat) : Good (rwAddPeer p) (fun _ => True) where
     | true => rw [rwAddPeer_present h]
     | false => rw [rwAddPeer_absent h]
 
-theorem planOrc_leader (lead : Nat) (plan : List PT) (k : Nat) : (planOrc lead plan k).leader = some lead := by
+theorem planOrc_leader (self lead : Nat) (plan : List PT) (hx : plan.contains .x = false) (k : Nat) :
+    (planOrc self lead plan k).leader = some lead := by
   unfold planOrc
   cases h : plan[k]? with
   | none => rfl
-  | some t => cases t <;> rfl
+  | some t =>
+    cases t with
+    | f => rfl
+    | l => rfl
+    | x =>
+      have : PT.x ∈ plan := List.mem_of_getElem? h
+      have : plan.contains .x = true := by simpa using this
+      rw [hx] at this; cases this
 
-theorem planOrc_passes (lead : Nat) (plan : List PT) : (planOrc lead plan plan.length).ok = true := by
+theorem planOrc_passes (self lead : Nat) (plan : List PT) : (planOrc self lead plan plan.length).ok = true := by
   unfold planOrc
   simp
 
@@ -399,12 +407,12 @@ theorem fStep_add {retries : Nat} {init : List Nat} {s : FSt} {log log' : List E
     ∀ c ∈ fCheckOp retries init s (.add a j lead plan res fwd loc has), c.2 = true := by
   unfold fStep at h
   obtain ⟨orc, ho, hc⟩ := fCallAny_some _ h
-  have ho' : orc = planOrc lead plan := by simpa using ho
+  have ho' : orc = planOrc a lead plan := by simpa using ho
   subst ho'
   obtain ⟨hp, hres, hlog, hhas⟩ := fCall_some hc
-  have hlog' : log' = (consAddPeer a retries (planOrc lead plan) log j).2 := hlog
-  have hres' : (consAddPeer a retries (planOrc lead plan) log j).1 = res := hres
-  have honce := add_once_if_absent' a retries (planOrc lead plan) log j
+  have hlog' : log' = (consAddPeer a retries (planOrc a lead plan) log j).2 := hlog
+  have hres' : (consAddPeer a retries (planOrc a lead plan) log j).1 = res := hres
+  have honce := add_once_if_absent' a retries (planOrc a lead plan) log j
   rw [← hlog'] at honce
   constructor
   · -- bookkeeping
@@ -439,7 +447,7 @@ theorem fStep_add {retries : Nat} {init : List Nat} {s : FSt} {log log' : List E
       | ok =>
         right
         rw [hr] at hres'
-        have := add_effect' a retries (planOrc lead plan) log j hres'
+        have := add_effect' a retries (planOrc a lead plan) log j hres'
         rw [← hlog'] at this
         rw [hhas]; exact modelHas_all.2 this
     · -- failed_not_split
@@ -462,17 +470,19 @@ theorem fStep_add {retries : Nat} {init : List Nat} {s : FSt} {log log' : List E
         simp only [Bool.and_eq_true] at hprem
         obtain ⟨⟨_, hj⟩, hpass⟩ := hprem
         rw [contains_iff_cfgHas R] at hj
-        have hok : (consAddPeer a retries (planOrc lead plan) log j).1 = .ok := by
+        have hok : (consAddPeer a retries (planOrc a lead plan) log j).1 = .ok := by
           unfold planPasses at hpass
+          simp only [Bool.and_eq_true, Bool.not_eq_true'] at hpass
+          obtain ⟨hnx, hpass⟩ := hpass
           by_cases hal : (lead == a) = true
           · have : lead = a := by simpa using hal
             subst this
-            exact consLoop_leading (planOrc_leader _ _ 0) (fun f => by rw [rwAddPeer_present hj])
-          · refine consLoop_answered (good_add_present j) (planOrc_leader lead plan) hj (by simpa using hal) ?_
+            exact consLoop_leading (planOrc_leader _ _ _ hnx 0) (fun f => by rw [rwAddPeer_present hj])
+          · refine consLoop_answered (good_add_present j) (planOrc_leader a lead plan hnx) hj (by simpa using hal) ?_
             simp only [Bool.or_eq_true, beq_iff_eq, decide_eq_true_eq] at hpass
             rcases hpass with hpass | hpass
             · exact absurd (by simp [hpass]) hal
-            · exact ⟨plan.length, hpass, planOrc_passes lead plan⟩
+            · exact ⟨plan.length, hpass, planOrc_passes a lead plan⟩
         rw [hres'] at hok
         simp [okB, hok]
 
@@ -558,21 +568,23 @@ theorem fStep_rm {retries : Nat} {init : List Nat} {s : FSt} {log log' : List En
           | false => rfl
           | true => have : j = lead := by simpa using hx
                     subst this; rw [hlead] at hj; cases hj
-        have ho' : orc = planOrc lead plan := by
+        have ho' : orc = planOrc a lead plan := by
           unfold rmOrcs at ho
           simpa [haj, hlj] using ho
         subst ho'
-        have hok : (consRmPeer a retries (planOrc lead plan) log j).1 = .ok := by
+        have hok : (consRmPeer a retries (planOrc a lead plan) log j).1 = .ok := by
           unfold planPasses at hpass
+          simp only [Bool.and_eq_true, Bool.not_eq_true'] at hpass
+          obtain ⟨hnx, hpass⟩ := hpass
           by_cases hal : (lead == a) = true
           · have : lead = a := by simpa using hal
             subst this
-            exact consLoop_leading (planOrc_leader _ _ 0) (fun f => by rw [rwRemovePeer_absent hj])
-          · refine consLoop_answered (good_rm_absent j) (planOrc_leader lead plan) hj (by simpa using hal) ?_
+            exact consLoop_leading (planOrc_leader _ _ _ hnx 0) (fun f => by rw [rwRemovePeer_absent hj])
+          · refine consLoop_answered (good_rm_absent j) (planOrc_leader a lead plan hnx) hj (by simpa using hal) ?_
             simp only [Bool.or_eq_true, beq_iff_eq, decide_eq_true_eq] at hpass
             rcases hpass with hpass | hpass
             · exact absurd (by simp [hpass]) hal
-            · exact ⟨plan.length, hpass, planOrc_passes lead plan⟩
+            · exact ⟨plan.length, hpass, planOrc_passes a lead plan⟩
         rw [hres'] at hok
         simp [okB, hok]
     · -- last_peer_kept
@@ -651,5 +663,246 @@ theorem fObs_clauses {init : List Nat} {s : FSt} {log : List Entry} (R : FRel s 
     exact ⟨this.1.1, this.1.2⟩
   simp only [fCheckObs, List.all_cons, List.all_nil, Bool.and_true, Bool.and_eq_true, List.all_eq_true, beq_iff_eq]
   exact ⟨fun m hm => (key m hm).1, fun m hm => (key m hm).2⟩
+
+
+/-! ### a joiner during a burst of pins -/
+
+/-- a peer that `WaitForSync` lets through has applied every entry logged before its own addition: if no entry below
+    index `a` gives it a vote, its state is the state at `a` extended by what it applied since -/
+theorem joiner_sync_lemma (log : List Entry) (j h a : Nat)
+    (hr : syncReady log true { id := j, have_ := h, applied := h } = true)
+    (hfirst : ∀ k e, log[k]? = some e → e.enfranchises j = true → a ≤ k) :
+    a < h ∧ pinsAt (log.take h) = ((log.take h).drop a).foldl applyPin (pinsAt (log.take a)) := by
+  unfold syncReady at hr
+  simp only [Bool.true_and, Bool.and_eq_true, beq_iff_eq] at hr
+  obtain ⟨hv, _⟩ := hr
+  unfold Member.cfg cfgAt at hv
+  simp only at hv
+  rcases cfgVoter_foldl _ _ hv with h0 | ⟨k, e, hk, he⟩
+  · simp [cfgVoter] at h0
+  · have hklt : k < h := by
+      have := (List.getElem?_eq_some_iff.1 hk).1
+      rw [List.length_take] at this
+      omega
+    have hk' : log[k]? = some e := by
+      rw [List.getElem?_take] at hk
+      split_ifs at hk
+      exact hk
+    have hak := hfirst k e hk' he
+    refine ⟨by omega, ?_⟩
+    unfold pinsAt
+    rw [← List.foldl_append]
+    congr 1
+    have : log.take a = (log.take h).take a := by
+      rw [List.take_take]; congr 1; omega
+    rw [this, List.take_append_drop]
+
+
+/-! ### the join suite: what the model admits meets the clauses -/
+def putAll (ps : List Pin) (m : PinMap) : PinMap := ps.foldl (fun m p => PinMap.put p.stored m) m
+
+theorem stored_cid (p : Pin) : p.stored.cid = p.cid := rfl
+
+theorem wf_putAll (ps : List Pin) : ∀ {m : PinMap}, m.wf = true → (putAll ps m).wf = true := by
+  induction ps with
+  | nil => intro m h; exact h
+  | cons q rest ih => intro m h; exact ih (wf_put h _)
+
+theorem get_putAll_not_mem (ps : List Pin) (c : Nat) (hc : ∀ q ∈ ps, q.cid ≠ c) :
+    ∀ {m : PinMap}, m.wf = true → (putAll ps m).get c = m.get c := by
+  induction ps with
+  | nil => intro m _; rfl
+  | cons q rest ih =>
+    intro m h
+    show (putAll rest (PinMap.put q.stored m)).get c = m.get c
+    rw [ih (fun x hx => hc x (List.mem_cons_of_mem _ hx)) (wf_put h _), get_put h]
+    have : q.stored.cid ≠ c := hc q (List.mem_cons_self ..)
+    rw [if_neg this]
+
+theorem get_putAll_mem (ps : List Pin) (hn : (ps.map (·.cid)).Nodup) {p : Pin} (hp : p ∈ ps) :
+    ∀ {m : PinMap}, m.wf = true → (putAll ps m).get p.cid = some p.stored := by
+  induction ps with
+  | nil => cases hp
+  | cons q rest ih =>
+    intro m h
+    simp only [List.map_cons, List.nodup_cons] at hn
+    show (putAll rest (PinMap.put q.stored m)).get p.cid = some p.stored
+    rcases List.mem_cons.1 hp with rfl | hp'
+    · rw [get_putAll_not_mem rest _ (fun x hx hxe => hn.1 (List.mem_map.2 ⟨x, hx, hxe⟩)) (wf_put h _),
+        get_put h]
+      simp [stored_cid]
+    · exact ih hn.2 hp' (wf_put h _)
+
+theorem pinsAt_append_pinEntries (log : List Entry) (ps : List Pin) :
+    pinsAt (log ++ ps.map Entry.pin) = putAll ps (pinsAt log) := by
+  unfold pinsAt putAll
+  rw [List.foldl_append, List.foldl_map]
+  rfl
+
+theorem cfgAt_append_pinEntries (log : List Entry) (ps : List Pin) : cfgAt (log ++ ps.map Entry.pin) = cfgAt log :=
+  cfgAt_append_pins log _ (by intro e he; obtain ⟨q, _, rfl⟩ := List.mem_map.1 he; rfl)
+
+theorem canon_get (m : PinMap) (c : Nat) : (canonMap m).get c = (m.get c).map canonPin := by
+  induction m with
+  | nil => rfl
+  | cons q rest ih =>
+    show PinMap.get (canonPin q :: canonMap rest) c = _
+    rw [get_cons, get_cons]
+    have : (canonPin q).cid = q.cid := rfl
+    rw [this]
+    split_ifs
+    · rfl
+    · exact ih
+
+/-- entries that do not touch cid `c` leave its value alone -/
+theorem get_foldl_applyPin_other (es : List Entry) (c : Nat)
+    (h : ∀ e ∈ es, (∀ q, e = .pin q → q.cid ≠ c) ∧ (∀ d, e ≠ .unpin d)) :
+    ∀ {m : PinMap}, m.wf = true → (es.foldl applyPin m).get c = m.get c := by
+  induction es with
+  | nil => intro m _; rfl
+  | cons e rest ih =>
+    intro m hw
+    simp only [List.foldl_cons]
+    rw [ih (fun x hx => h x (List.mem_cons_of_mem _ hx)) (wf_applyPin hw e)]
+    have he := h e (List.mem_cons_self ..)
+    cases e with
+    | pin q =>
+      simp only [applyPin]
+      rw [get_put hw]
+      have : q.stored.cid ≠ c := he.1 q rfl
+      rw [if_neg this]
+    | unpin d => exact absurd rfl (he.2 d)
+    | boot ids => rfl
+    | addVoter q => rfl
+    | addNonvoter q => rfl
+    | rmServer q => rfl
+
+structure WfJ (k : JCase) : Prop where
+  fresh : k.joiner ∉ k.init
+  distinct : ((k.pre ++ k.burst).map (·.cid)).Nodup
+  acked : k.acked ≤ k.burst.length
+
+theorem jLog_split (k : JCase) (m : Nat) (hm : m ≤ (k.pre ++ k.burst).length) :
+    (jLog k m).take (m + 1) = [.boot k.init] ++ ((k.pre ++ k.burst).take m).map Entry.pin ∧
+    (jLog k m).drop (m + 1) = [.addVoter k.joiner] ++ ((k.pre ++ k.burst).drop m).map Entry.pin := by
+  have hl : ([Entry.boot k.init] ++ ((k.pre ++ k.burst).take m).map Entry.pin).length = m + 1 := by
+    rw [List.length_append, List.length_map, List.length_take, Nat.min_eq_left hm]; simp; omega
+  unfold jLog
+  constructor
+  · rw [List.append_assoc ([Entry.boot k.init] ++ _), List.take_left' hl]
+  · rw [List.append_assoc ([Entry.boot k.init] ++ _), List.drop_left' hl]
+
+theorem jLog_cfg (k : JCase) (m : Nat) : cfgIds (cfgAt (jLog k m)) = insertPeer k.joiner (normPeers k.init) := by
+  unfold jLog
+  rw [cfgAt_append_pinEntries, cfgAt_append, cfgAt_append_pinEntries]
+  simp only [applyCfg]
+  rw [cfgIds_cfgPut]
+  congr 1
+  show cfgIds (cfgAt [.boot k.init]) = normPeers k.init
+  simp only [cfgAt, List.foldl_cons, List.foldl_nil, applyCfg]
+  exact cfgIds_initCfg k.init
+
+theorem jLog_pins (k : JCase) (m : Nat) : pinsAt (jLog k m) = putAll (k.pre ++ k.burst) [] := by
+  unfold jLog
+  rw [pinsAt_append_pinEntries, pinsAt_append, pinsAt_append_pinEntries]
+  simp only [applyPin]
+  have : pinsAt [Entry.boot k.init] = [] := rfl
+  rw [this]
+  unfold putAll
+  rw [← List.foldl_append, List.take_append_drop]
+
+
+theorem mem_take_mono {α : Type} {l : List α} {n m : Nat} (h : n ≤ m) {x : α} (hx : x ∈ l.take n) : x ∈ l.take m := by
+  have : l.take n = (l.take m).take n := by rw [List.take_take]; congr 1; omega
+  rw [this] at hx
+  exact List.mem_of_mem_take hx
+
+/-- the joiner's state when `WaitForSync` let it through holds every pin logged before its addition -/
+theorem jReady_holds (k : JCase) (hw : WfJ k) (m h : Nat) (hm : m ≤ (k.pre ++ k.burst).length)
+    (hr : syncReady (jLog k m) true { id := k.joiner, have_ := h, applied := h } = true)
+    {p : Pin} (hp : p ∈ (k.pre ++ k.burst).take m) :
+    (pinsAt ((jLog k m).take h)).get p.cid = some p.stored := by
+  obtain ⟨htake, hdrop⟩ := jLog_split k m hm
+  have hfirst : ∀ i e, (jLog k m)[i]? = some e → e.enfranchises k.joiner = true → m + 1 ≤ i := by
+    intro i e hi he
+    by_contra hlt
+    have hlt' : i < m + 1 := by omega
+    have : ((jLog k m).take (m + 1))[i]? = some e := by
+      rw [List.getElem?_take, if_pos hlt']; exact hi
+    rw [htake] at this
+    have hmem : e ∈ [Entry.boot k.init] ++ ((k.pre ++ k.burst).take m).map Entry.pin := List.mem_of_getElem? this
+    rcases List.mem_append.1 hmem with h1 | h1
+    · have : e = .boot k.init := by simpa using h1
+      subst this
+      simp only [Entry.enfranchises] at he
+      exact hw.fresh (by simpa using he)
+    · obtain ⟨q, _, rfl⟩ := List.mem_map.1 h1
+      simp [Entry.enfranchises] at he
+  obtain ⟨_, hpins⟩ := joiner_sync_lemma (jLog k m) k.joiner h (m + 1) hr hfirst
+  rw [hpins, htake, pinsAt_append_pinEntries]
+  have hwf : (putAll ((k.pre ++ k.burst).take m) (pinsAt [Entry.boot k.init])).wf = true := wf_putAll _ (wf_pinsAt _)
+  have hnodupA : (((k.pre ++ k.burst).take m).map (·.cid)).Nodup := by
+    rw [List.map_take]
+    exact (List.take_sublist _ _).nodup hw.distinct
+  rw [get_foldl_applyPin_other _ p.cid ?_ hwf]
+  · exact get_putAll_mem _ hnodupA hp (wf_pinsAt _)
+  · intro e he
+    have he' : e ∈ (jLog k m).drop (m + 1) := by
+      have h1 : e ∈ ((jLog k m).take h).drop (m + 1) := he
+      rw [List.drop_take] at h1
+      exact List.mem_of_mem_take h1
+    rw [hdrop] at he'
+    rcases List.mem_append.1 he' with h1 | h1
+    · have : e = .addVoter k.joiner := by simpa using h1
+      subst this
+      exact ⟨fun q hq => (by cases hq), fun d hd => (by cases hd)⟩
+    · obtain ⟨q, hq, rfl⟩ := List.mem_map.1 h1
+      refine ⟨fun q' hq' => ?_, fun d hd => (by cases hd)⟩
+      injection hq' with hq'
+      subst hq'
+      -- p is among the first m pins, q among the others: distinct cids
+      intro hc
+      have hsplit : (k.pre ++ k.burst) = (k.pre ++ k.burst).take m ++ (k.pre ++ k.burst).drop m := (List.take_append_drop m _).symm
+      have hd := hw.distinct
+      rw [hsplit, List.map_append, List.nodup_append] at hd
+      exact hd.2.2 _ (List.mem_map.2 ⟨p, hp, rfl⟩) _ (List.mem_map.2 ⟨q, hq, rfl⟩) hc.symm
+
+
+theorem join_allowed_holds' (k : JCase) (hw : WfJ k) (ha : jAllowed k = true) : jHolds k = true := by
+  simp only [jAllowed, Bool.and_eq_true, List.any_eq_true, List.mem_range, decide_eq_true_eq, beq_iff_eq,
+    List.all_eq_true] at ha
+  obtain ⟨⟨⟨⟨hres, _⟩, _⟩, _⟩, m, hmr, ⟨hpos, h, _, hr, hready⟩, hobs, _⟩ := ha
+  have hm : m ≤ (k.pre ++ k.burst).length := by omega
+  have hobs' : ∀ mo ∈ k.obs.members.filter (fun mo => (k.joiner :: k.init).contains mo.id),
+      mo.peers = cfgIds (cfgAt (jLog k m)) ∧ canonMap mo.pins = canonMap (pinsAt (jLog k m)) := by
+    intro mo hmo
+    obtain ⟨h1, h2⟩ := List.mem_filter.1 hmo
+    have := hobs mo h1
+    simp only [h2, Bool.not_true, Bool.false_or, Bool.and_eq_true, beq_iff_eq] at this
+    exact this
+  unfold jHolds jClauses
+  simp only [List.all_cons, List.all_nil, Bool.and_true, Bool.and_eq_true]
+  refine ⟨?_, ?_, ?_⟩
+  · -- joiner_synced
+    simp only [Bool.or_eq_true, List.all_eq_true, beq_iff_eq]
+    right
+    intro p hp
+    have hp' : p ∈ (k.pre ++ k.burst).take m := by
+      have : k.pre ++ k.burst.take k.acked = (k.pre ++ k.burst).take (k.pre.length + k.acked) :=
+        (List.take_length_add_append k.acked).symm
+      rw [this] at hp
+      exact mem_take_mono hpos hp
+    have hg := jReady_holds k hw m h hm hr hp'
+    have hc : canonMap k.ready = canonMap (pinsAt ((jLog k m).take h)) := hready.symm
+    rw [hc, canon_get, hg]
+    rfl
+  · simp only [Bool.or_eq_true, List.all_eq_true, beq_iff_eq]
+    right
+    intro mo hmo
+    rw [(hobs' mo hmo).1, jLog_cfg]
+  · simp only [List.all_eq_true, beq_iff_eq]
+    intro mo hmo
+    rw [(hobs' mo hmo).2, jLog_pins]
+    rfl
 
 end CV.C17
